@@ -85,16 +85,34 @@ def u_defaults(ctx, kind):
     ctx.check("only-that-key", cond(got <= {k}))
 
 
-def s_rollup(ctx, shape, limited):
-    """System level: real solve() with the real _solv_get_warns; per-row cell and Subsystem / total roll-up."""
+def s_rollup(ctx, shape, limited, replaced=False):
+    """System level: real solve() with the real _solv_get_warns; per-row cell and Subsystem / total roll-up.
+    ``replaced``: the limited components first carry OTHER (symbolic) limits, the system is analysed, and they are then replaced under
+    their own names (change_comp) by components with the limits the oracle knows - warnings must follow the components now in the system."""
     shape = {"nodes": [dict(n) for n in shape["nodes"]], "phases": shape.get("phases")}
     lims = {}
     for nd in shape["nodes"]:
         if nd["name"] in limited:
             lims[nd["name"]] = mk_limits(ctx, nd["name"], limited[nd["name"]])
-            nd["limits"] = lims[nd["name"]]
+            nd["limits"] = mk_limits(ctx, nd["name"] + ".old", limited[nd["name"]]) if replaced else lims[nd["name"]]
     sysobj, info, durations = sysh.build_system(ctx, shape)
     import sysloss.components as C
+    if replaced:
+        try:
+            sysh.run_solve(ctx, sysobj, shape, stub_warns="bounded")
+        except sysh.Unstable:
+            ctx.note("unstable")
+            return
+        for nd in shape["nodes"]:
+            if nd["name"] in limited:
+                kw = {"rail": nd["rail"]} if nd.get("rail") else {}
+                if nd.get("group"):
+                    kw["group"] = nd["group"]
+                conf = sysobj._g.attrs["phase_conf"].get(nd["name"])
+                sysobj.change_comp(nd["name"], comp=construct(nd["kind"], nd["name"], info[nd["name"]]["P"], limits=lims[nd["name"]]), **kw)
+                if conf:  # change_comp resets the phase configuration of the replaced component
+                    sysobj.set_comp_phases(nd["name"], conf)
+        ctx.cover("replaced")
 
     orig = C._Component._solv_get_warns
 
@@ -219,4 +237,9 @@ def instances(tier):
     one = S(N("S", "Source"), N("G", "LinReg", "S", only=("vdrop",)), N("L", "RLoad", "G", only=()))
     out.append(Instance("C09", "c09:s_rollup", dict(shape=one, limited={"G": ["vd", "tp"]}), name="S/one-src/vd+tp", uf=True,
                         cover=["solved", "some-warning"], weight=30))
+    # limits follow the components NOW in the system: analysed with other limits first, then replaced under the same names
+    out.append(Instance("C09", "c09:s_rollup", dict(shape=two, limited={"C": ["io"], "L2": ["vi"]}, replaced=True), name="S/replaced/two-src/io+vi", uf=True,
+                        cover=["solved", "some-warning", "replaced"], weight=40))
+    out.append(Instance("C09", "c09:s_rollup", dict(shape=one, limited={"G": ["vd"], "L": ["pi"]}, replaced=True), name="S/replaced/one-src/vd+pi", uf=True,
+                        cover=["solved", "some-warning", "replaced"], weight=40))
     return out, META
